@@ -357,7 +357,7 @@ func (b *BackendServer) sendRoomDisinvite(roomid string, backend *Backend, reaso
 		wg.Add(1)
 		go func(sessionid string) {
 			defer wg.Done()
-			if sid, err := b.lookupByRoomSessionId(ctx, sessionid, nil); err != nil {
+			if sid, err := b.lookupByRoomSessionId(ctx, backend, sessionid, nil); err != nil {
 				log.Printf("Could not lookup by room session %s: %s", sessionid, err)
 			} else if sid != "" {
 				if err := b.events.PublishSessionMessage(sid, backend, msg); err != nil {
@@ -400,7 +400,7 @@ func (b *BackendServer) sendRoomUpdate(roomid string, backend *Backend, notified
 	}
 }
 
-func (b *BackendServer) lookupByRoomSessionId(ctx context.Context, roomSessionId string, cache *ConcurrentStringStringMap) (string, error) {
+func (b *BackendServer) lookupByRoomSessionId(ctx context.Context, backend *Backend, roomSessionId string, cache *ConcurrentStringStringMap) (string, error) {
 	if roomSessionId == sessionIdNotInMeeting {
 		log.Printf("Trying to lookup empty room session id: %s", roomSessionId)
 		return "", nil
@@ -419,13 +419,19 @@ func (b *BackendServer) lookupByRoomSessionId(ctx context.Context, roomSessionId
 		return "", err
 	}
 
+	if session := b.hub.GetSessionByPublicId(sid); session != nil && backend != nil && session.Backend().Id() != backend.Id() {
+		// Room session ids are only unique per backend, the session found
+		// belongs to a different one.
+		return "", nil
+	}
+
 	if cache != nil {
 		cache.Set(roomSessionId, sid)
 	}
 	return sid, nil
 }
 
-func (b *BackendServer) fixupUserSessions(ctx context.Context, cache *ConcurrentStringStringMap, users []map[string]interface{}) []map[string]interface{} {
+func (b *BackendServer) fixupUserSessions(ctx context.Context, backend *Backend, cache *ConcurrentStringStringMap, users []map[string]interface{}) []map[string]interface{} {
 	if len(users) == 0 {
 		return users
 	}
@@ -453,7 +459,7 @@ func (b *BackendServer) fixupUserSessions(ctx context.Context, cache *Concurrent
 		wg.Add(1)
 		go func(roomSessionId string, u map[string]interface{}) {
 			defer wg.Done()
-			if sessionId, err := b.lookupByRoomSessionId(ctx, roomSessionId, cache); err != nil {
+			if sessionId, err := b.lookupByRoomSessionId(ctx, backend, roomSessionId, cache); err != nil {
 				log.Printf("Could not lookup by room session %s: %s", roomSessionId, err)
 				delete(u, "sessionId")
 			} else if sessionId != "" {
@@ -483,9 +489,9 @@ func (b *BackendServer) sendRoomIncall(roomid string, backend *Backend, request 
 		defer cancel()
 		var cache ConcurrentStringStringMap
 		// Convert (Nextcloud) session ids to signaling session ids.
-		request.InCall.Users = b.fixupUserSessions(ctx, &cache, request.InCall.Users)
+		request.InCall.Users = b.fixupUserSessions(ctx, backend, &cache, request.InCall.Users)
 		// Entries in "Changed" are most likely already fetched through the "Users" list.
-		request.InCall.Changed = b.fixupUserSessions(ctx, &cache, request.InCall.Changed)
+		request.InCall.Changed = b.fixupUserSessions(ctx, backend, &cache, request.InCall.Changed)
 
 		if len(request.InCall.Users) == 0 && len(request.InCall.Changed) == 0 {
 			return nil
@@ -506,8 +512,8 @@ func (b *BackendServer) sendRoomParticipantsUpdate(roomid string, backend *Backe
 	ctx, cancel := context.WithTimeout(context.Background(), timeout)
 	defer cancel()
 	var cache ConcurrentStringStringMap
-	request.Participants.Users = b.fixupUserSessions(ctx, &cache, request.Participants.Users)
-	request.Participants.Changed = b.fixupUserSessions(ctx, &cache, request.Participants.Changed)
+	request.Participants.Users = b.fixupUserSessions(ctx, backend, &cache, request.Participants.Users)
+	request.Participants.Changed = b.fixupUserSessions(ctx, backend, &cache, request.Participants.Changed)
 
 	if len(request.Participants.Users) == 0 && len(request.Participants.Changed) == 0 {
 		return nil
@@ -596,7 +602,7 @@ func (b *BackendServer) sendRoomSwitchTo(roomid string, backend *Backend, reques
 				wg.Add(1)
 				go func(roomSessionId string) {
 					defer wg.Done()
-					if sessionId, err := b.lookupByRoomSessionId(ctx, roomSessionId, nil); err != nil {
+					if sessionId, err := b.lookupByRoomSessionId(ctx, backend, roomSessionId, nil); err != nil {
 						log.Printf("Could not lookup by room session %s: %s", roomSessionId, err)
 					} else if sessionId != "" {
 						mu.Lock()
@@ -634,7 +640,7 @@ func (b *BackendServer) sendRoomSwitchTo(roomid string, backend *Backend, reques
 				wg.Add(1)
 				go func(roomSessionId string, details json.RawMessage) {
 					defer wg.Done()
-					if sessionId, err := b.lookupByRoomSessionId(ctx, roomSessionId, nil); err != nil {
+					if sessionId, err := b.lookupByRoomSessionId(ctx, backend, roomSessionId, nil); err != nil {
 						log.Printf("Could not lookup by room session %s: %s", roomSessionId, err)
 					} else if sessionId != "" {
 						mu.Lock()
